@@ -94,8 +94,12 @@ def tee_scenario(seed):
         async def aclose(self):
             pending[0] += 1
 
+    class QLock(asyncio.Lock):
+        def __len__(self):          # reports its waiters: falsy whenever nobody waits, e.g. when handed over
+            return len(self._waiters or ())
+
     async def main():
-        lock = asyncio.Lock() if uselock else None
+        lock = (QLock() if seed % 2 else asyncio.Lock()) if uselock else None
         tee = L.tee(Source(), n=n, lock=lock) if uselock else L.tee(Source(), n=n)
         children = list(tee)
         del tee
@@ -277,6 +281,8 @@ def cprop_scenario(seed):
     uselock = rnd.random() < 0.7
     gsusp = rnd.randint(1, 3)
     trace = []
+    # instances nobody else refers to (`await Res(..).attr`): each is an instance of its own, numbered as it appears
+    eph_got = []
     cfg = {"tasks": ntask, "insts": ninst, "lock": uselock, "gsusp": gsusp, "exitsusp": False, "loop": "asyncio"}
     st = {"runs": 0, "fail": {}}
     locks = []
@@ -311,7 +317,10 @@ def cprop_scenario(seed):
 
     class Res:
         def __init__(self, idx):
-            self.idx = idx
+            object.__setattr__(self, "idx", idx)
+
+        def __setattr__(self, name, value):     # like a frozen dataclass: caching must not go through setattr
+            raise AttributeError(f"cannot assign to field {name!r}")
 
         attr = deco(getter)
 
@@ -322,8 +331,13 @@ def cprop_scenario(seed):
             for _ in range(rnd.randint(1, 3)):
                 for _ in range(rnd.randint(0, 2)):
                     await asyncio.sleep(0)
-                i = rnd.randint(1, ninst)
-                aw = insts[i].attr
+                if rnd.random() < 0.15:
+                    eph_got.append(0)
+                    i = ninst + len(eph_got)
+                    aw = Res(i).attr            # the only reference to the instance is the attribute just taken
+                else:
+                    i = rnd.randint(1, ninst)
+                    aw = insts[i].attr
                 ev(e="access", t=t, i=i)
                 for _ in range(rnd.choice([0, 0, 1, 2])):     # take the attribute now, await it later
                     try:
@@ -343,6 +357,8 @@ def cprop_scenario(seed):
                     ev(e="err", t=t, same=False, what=type(e).__name__)
                     return
                 ev(e="got", t=t, i=i, v=v[1] if isinstance(v, tuple) and len(v) == 2 else -1)
+                if i > ninst and isinstance(v, tuple):
+                    eph_got[i - ninst - 1] = v[1]
 
         tasks = [asyncio.ensure_future(user(t)) for t in range(1, ntask + 1)]
         for t, task in enumerate(tasks, start=1):
@@ -371,6 +387,8 @@ def cprop_scenario(seed):
             o = insts[i].__dict__.get("attr")
             val = getattr(o, "value", None) if type(o).__name__ == "AwaitableValue" else None
             slots.append(val[1] if isinstance(val, tuple) else 0)
+        slots += eph_got     # the throw-away instances are gone: what their one await returned is what they had cached
+        cfg["insts"] = ninst + len(eph_got)
         ev(e="quiesce", held=held, slots=slots, stuck=[])
 
     def _holding(tr, c):
